@@ -118,10 +118,10 @@ class Ob(object):
 
 
 def verify_worker(job):
-    """Generate and discharge the obligations of ONE contract (own process: real source re-read, fresh z3 context)."""
-    name, tier = job
+    """Generate the obligations of ONE contract (own process: real source re-read, fresh z3 context) and write each query to a scratch
+    file; the parent discharges all queries of all contracts in one shared pool (so that one big contract does not serialise the run)."""
+    name, tier, scratch = job
     from pyvc.run import build
-    from pyvc.solve import solve_all
     from pyvc.engine import Unsupported
     v = build()
     c = v.reg.contracts[name]
@@ -139,20 +139,42 @@ def verify_worker(job):
     except Exception as ex:      # noqa: an engine error on this contract must not take the other contracts down
         out['unsupported'] = 'engine error: %r\n%s' % (ex, traceback.format_exc()[-1200:])
         return out
-    if tier == 'quick':
-        solve_all(v.obligations, z3_timeout_ms=10000, cvc5_timeout_ms=20000, both=False, procs=1)
-    else:
-        solve_all(v.obligations, z3_timeout_ms=60000, cvc5_timeout_ms=60000, both=True, procs=1)
     out['warnings'] = sorted(set(v.warnings))
-    for o in v.obligations:
-        keep = o.verdict != 'proved'
-        out['obligations'].append({'oid': o.oid, 'kind': o.kind, 'func': o.func, 'note': o.note, 'verdict': o.verdict,
-                                   'backend': o.backend, 'time': o.time, 'reason': o.reason, 'model': o.model,
-                                   'candidate': getattr(o, 'candidate', False), 'expect_sat': o.expect_sat,
-                                   'sha': getattr(o, 'sha', ''), 'agree': getattr(o, 'agree', None),
-                                   'goal': (o.note or str(o.goal))[:300],
-                                   'smt2_text': (o.smt2() if keep else None)})
+    out['assumed_inputs'] = sorted(v.assumed_inputs)
+    sub = os.path.join(scratch, hashlib.sha1(name.encode()).hexdigest()[:12])
+    os.makedirs(sub, exist_ok=True)
+    for i, o in enumerate(v.obligations):
+        full = o.smt2()
+        rel = o.smt2(relaxed=True)
+        path = os.path.join(sub, '%d.smt2' % i)
+        with open(path, 'w') as f:
+            f.write(full)
+        rpath = None
+        if rel != full:
+            rpath = os.path.join(sub, '%d.rel.smt2' % i)
+            with open(rpath, 'w') as f:
+                f.write(rel)
+        out['obligations'].append({'oid': o.oid, 'kind': o.kind, 'func': o.func, 'note': o.note, 'expect_sat': o.expect_sat,
+                                   'sha': getattr(o, 'sha', ''), 'goal': (o.note or str(o.goal))[:300],
+                                   'path': path, 'rel_path': rpath, 'size': len(full)})
     return out
+
+
+def solve_file_job(job):
+    from pyvc.solve import solve_one
+    d, t_z3, t_cvc5, both = job
+    with open(d['path']) as f:
+        full = f.read()
+    rel = None
+    if d.get('rel_path'):
+        with open(d['rel_path']) as f:
+            rel = f.read()
+    r = solve_one((d['oid'], full, d['expect_sat'], t_z3, t_cvc5, both, rel))
+    keep = r['verdict'] != 'proved'
+    d = dict(d)
+    d.update(verdict=r['verdict'], backend=r['backend'], time=r['time'], reason=r['reason'], model=r['model'], agree=r.get('agree'),
+             candidate=r.get('candidate', False), smt2_text=(full if keep and len(full) < 400000 else None))
+    return d
 
 
 def run_check(prop, args, seed, t_start):
@@ -181,10 +203,28 @@ def run_check(prop, args, seed, t_start):
     import multiprocessing
     obs = []
     infeasible_calls = []
+    assumed_inputs = set()
     if todo:
         mp = multiprocessing.get_context('fork')
-        with mp.Pool(min(16, len(todo))) as pool:
-            results = pool.map(verify_worker, [(c.name, tier) for c in todo], chunksize=1)
+        scratch = tempfile.mkdtemp(prefix='pyvc_queries_')
+        try:
+            with mp.Pool(min(16, len(todo))) as pool:
+                results = pool.map(verify_worker, [(c.name, tier, scratch) for c in todo], chunksize=1)
+            budgets = (10000, 20000, False) if tier == 'quick' else (60000, 60000, True)
+            jobs = []
+            for r in results:
+                for d in r['obligations']:
+                    jobs.append((d,) + budgets)
+            jobs.sort(key=lambda j: -j[0]['size'])          # big queries first: better packing of the pool
+            solved = {}
+            if jobs:
+                with mp.Pool(min(16, len(jobs))) as pool:
+                    for d in pool.imap_unordered(solve_file_job, jobs, chunksize=1):
+                        solved[(d['func'], d['oid'])] = d
+            for r in results:
+                r['obligations'] = [solved[(d['func'], d['oid'])] for d in r['obligations']]
+        finally:
+            shutil.rmtree(scratch, ignore_errors=True)
         for r in results:
             for w in r.get('warnings', []):
                 if 'is infeasible at a call' in w:
@@ -194,8 +234,12 @@ def run_check(prop, args, seed, t_start):
                 unsupported.append({'contract': r['name'], 'reason': r['unsupported']})
                 continue
             funcs.append({'name': r['name'], 'sha256': r['sha'], 'obligations': len(r['obligations']), 'kind': r['kind']})
+            assumed_inputs.update('in %s, at the call of %s' % (r['name'], a) for a in r.get('assumed_inputs', []))
             obs.extend(Ob(d) for d in r['obligations'])
     info = dict(info, assumed_contracts=assumed)
+    if assumed_inputs:
+        info['assumptions'] = list(info.get('assumptions', [])) + ['input well-formedness assumed (not derivable from coder state; real code raises '
+                                                                   'there): %s' % a for a in sorted(assumed_inputs)]
     ground = [g for g in K.ground_checks(v.db) if info.get('ground') is None or g[0] in info['ground'] or True]
     syntactic = []
     for fn in info.get('syntactic', []):
